@@ -74,7 +74,7 @@ TRUSTED = [
     "a model is sample-independent iff none of its modules couples samples or updates running statistics (forward = composition of the submodules' forwards with per-sample glue)",
     "module trees, not DAGs: a module / parameter object registered twice is not modelled; tensor shapes are not modelled (load_state_dict size mismatches)",
 ]
-PARTIAL = []
+PARTIAL = ["the mode (train / eval) fix() gives a replacement is not part of the model (a replacement is modelled as the freshly constructed layer); it is checked at the function level by the eval-mode dropout oracle"]
 
 V_AS_CODED = {"walkAll": 0, "kwIN": 0, "kwLSTM": 0, "kwMHA": 0, "inDropBuffers": 0}
 LEAN_TY = {
@@ -177,6 +177,15 @@ def real_fix(m, kw):
         return ("err", exc_str(e), None)
     finally:
         mvmod.clone_module = orig
+    # The model describes a replacement as the freshly constructed (training-mode) layer the fixer returns.  Since fix
+    # f277a95 ("fix: ModuleValidator.fix keeps a replacement in the mode … of the layer it replaces") the real fix() additionally calls
+    # .train(sub_module.training) on it; that step is checked by eval_dropout_fix_oracle (function level), and undone here so
+    # that everything else about the replacement is still compared with the model node by node.
+    om = dict(m.named_modules())
+    for path, g in list(f.named_modules()):
+        o = om.get(path)
+        if o is not None and type(o) is not type(g):
+            g.train(True)
     return ("ok", f, cap.get("nb"))
 
 
@@ -734,6 +743,33 @@ def search_one(ctx, spec, kw, seed):
         ctx.property_failure(r[0], r[1], dict(r[2], failing_input={"op": "fix", "spec": spec, "kw": kw, "seed": seed}))
 
 
+def eval_dropout_fix_oracle(seed):
+    """fix() on an EVAL-mode model whose LSTM / MultiheadAttention was built with dropout > 0: the layer is deterministic
+    (dropout is the identity in eval mode), so its replacement has to be – and has to compute the same function.  Returns a
+    list of (key, what, replay)."""
+    MV, _, _ = opacus()
+    out = []
+    g = torch.Generator().manual_seed(seed)
+    for tn, mk, call in (
+        ("LSTM", lambda: nn.LSTM(3, 4, num_layers=2, dropout=0.5, batch_first=True), lambda l, x: l(x)[0]),
+        ("MultiheadAttention", lambda: nn.MultiheadAttention(4, 2, dropout=0.5, batch_first=True), lambda l, x: l(x, x, x)[0]),
+    ):
+        torch.manual_seed(seed % 1000)
+        m = nn.Sequential()
+        m.add_module("layer", mk())
+        m = m.to(torch.get_default_dtype()).eval()
+        f = MV.fix(m)
+        x = torch.randn(2, 5, 3 if tn == "LSTM" else 4, generator=g, dtype=torch.get_default_dtype())
+        with torch.no_grad():
+            a, b1, b2 = call(m.layer, x), call(f.layer, x), call(f.layer, x)
+        d = float((a - b1).abs().max())
+        if not torch.equal(b1, b2) or not d < 1e-9:
+            out.append((f"C15:fix:{tn}:different-function:eval-mode-dropout",
+                        f"fix() of an eval-mode model: nn.{tn}(dropout=0.5) is deterministic in eval mode, its replacement {type(f.layer).__name__} (training={f.layer.training}) "
+                        f"differs from it by {d:.3g}" + ("" if torch.equal(b1, b2) else " and from call to call"), {"failing_input": {"op": "fix-eval-dropout", "seed": seed}}))
+    return out
+
+
 def mixed_dtype_search(ctx, spec, seed):
     """fix() on a model whose FIRST parameter has another dtype than the rest (a 16-bit embedding or norm in
     front of float32 layers, ...): parameters and buffers of every module fix does not replace keep their
@@ -837,6 +873,10 @@ def run(ctx):
             search_one(ctx, zoo.gen_spec(ctx.rng, flips=False), gen_kw(ctx.rng), ctx.rng.randrange(1 << 30))
         for _ in range(ctx.n(60, 600)):
             mixed_dtype_search(ctx, zoo.gen_spec(ctx.rng, flips=False), ctx.rng.randrange(1 << 30))
+        for _ in range(ctx.n(2, 10)):
+            ctx.count("search:fix-eval-dropout")
+            for r in eval_dropout_fix_oracle(ctx.rng.randrange(1 << 30)):
+                ctx.property_failure(r[0], r[1], r[2])
 
 
 class _Recorder:
@@ -865,6 +905,8 @@ def replay(ctx, rp):
         res = []
         if op == "witness":
             res = run_witness(fi["name"])
+        elif op == "fix-eval-dropout":
+            res = eval_dropout_fix_oracle(fi["seed"])
         elif op == "fix-mixed":
             rec = _Recorder(ctx)
             rec.count = lambda *a, **k: None
